@@ -245,6 +245,8 @@ def handle (st : DState) : List String → P (DState × String)
     pure (st, replyS (.ok (Spec.TR31.build c (← decBytes k) (← decHeader h) (← decStr forms) (← decNat pm) (← decBytes key) (← decBytes pad) ((← decNat lower) != 0))))
   | ["spec.tr31_build_raw", k, h, forms, pm, clear, lower] => do
     pure (st, replyS (.ok (Spec.TR31.buildRaw c (← decBytes k) (← decHeader h) (← decStr forms) (← decNat pm) (← decBytes clear) ((← decNat lower) != 0))))
+  | ["spec.tr31_build_rawenc", k, h, enc, lower] => do
+    pure (st, replyS (.ok (Spec.TR31.buildRawEnc c (← decBytes k) (← decHeader h) (← decBytes enc) ((← decNat lower) != 0))))
   | ["spec.decode", fmt, blk] => do
     let f ← decNat fmt
     match Spec.specDecode f (nibFill f) (Spec.bytesToNibs (← decBytes blk)) with
